@@ -30,7 +30,7 @@ ASSUMPTIONS = [
 BOUNDS = {"quick": "formula = one term with fallback (4 timestamps) and term with fallback + plain term (3 timestamps); every validity pattern, delivery order pattern; primary closed after a symbolic number of samples (or never)",
           "thorough": "5 timestamps; additionally a second (plain) term"}
 OUTSIDE = "the real FallbackFormulaMetricFetcher engine start-up (C12 covers its formula); fallback stream errors; more timestamps"
-BUDGET = {"quick": 300, "thorough": 1800}
+BUDGET = {"quick": 400, "thorough": 1200}
 PER = timedelta(seconds=1)
 
 
